@@ -83,6 +83,7 @@ LineFails(ln) ==
       [] ln.ev = "dec_snap" -> DecSnapFails(ln)
       [] ln.ev = "enc_snap" -> EncSnapFails(ln)
       [] ln.ev = "dec_seg" -> DecSegFails(ln)
+      [] ln.ev = "snaprt" -> FailT(ln.st = "ok" /\ ln.same, "C16:snapshot-roundtrip-through-key-type-" \o ln.kt \o "-" \o ln.st)
       [] ln.ev = "keyrt" -> FailT(ln.same_owned /\ ln.back_ok, "C16:key-encoding-roundtrip-" \o ln.kt)
       [] ln.ev = "keyrej" -> FailT(ln.u32_3 /\ ln.u32_5 /\ ln.arr4_3 /\ ln.str_bad_utf8, "C16:key-decoding-accepts-wrong-length")
       [] OTHER -> {"TOOL:unknown-line"}
